@@ -379,7 +379,8 @@ def c06_r2(ctx):
             good = bool(o) and (not wrapped if nested else len(wrapped) == len(o))
             ctx.check(good, key(fi, f"{kind_} {flag}={nested}"), f"{kind_} with {flag}={nested}: {'must be a plain literal' if nested else 'must be wrapped in Field(default_factory=lambda: ...)'}; got {[x.text()[:80] for x in o]}", fi.loc(),
                       okmsg=f"{kind_} {flag}={nested}: {'plain literal' if nested else 'Field(default_factory=...)'}")
-    keys = [n for n in walk_no_nested(fi.node) if isinstance(n, ast.ListComp) and norm(n.elt) == "generate_constant(f.name.value)" and norm(n.generators[0].iter) == "node.fields"]
+    from ..util import comp_struct as _cs3
+    keys = [n for n in walk_no_nested(fi.node) if isinstance(n, ast.ListComp) and _cs3(n)[0] in ("generate_constant($0.name.value)", "generate_constant(value=$0.name.value)") and norm(n.generators[0].iter) == "node.fields"]
     ctx.check(len(keys) == 1, key(fi, "object keys"), "object default keys are not the GraphQL field names", fi.loc(), okmsg="object default keys = GraphQL field names")
 
 
